@@ -40,3 +40,8 @@ claim("C16",
   text="Toolchain consumption without crash, structural part: " + _PANIC + " Entry points structure.APIFromImage, j5client.APIFromSource, export.BuildSwagger, export.FromProto.",
   note=_PANIC_NOTE + " Exhaustiveness of the per-field-kind switches, recursion guards and naming-convention agreement are not yet mechanised.",
   technique="panic-site inventory + compiler prove pass + dominator-fact guard analysis")
+
+claim("C08",
+  text="Decides the shape-of-code clauses of the wire format on every run: (W1) per Go value type the emitter chosen by encodeScalarField has the token class the README table requires, classes derived from the emitter bodies, and every type scalarGoFromReflect can return has a case; (W2) base64.StdEncoding, UTC + RFC3339 layout, %04d-%02d-%02d resolved by object identity; (W3) FormatFloat only under NaN/Inf tests; (W4) open/close pairing by defer and the separator idiom in every container callback; (W5) who may write raw bytes: only structural constants, strconv numbers, appendString output, and a definitely-assigned pre-encoded splice in encodeAny; (W6) \"!type\"/\"value\" framing on both encoder and decoder; (W7) the escaper's mandatory escape set and single call site; (X4) encodeValue's interface dispatch order against the roles each Field implementation declares; plus the R-PANIC inventory over the encode path.",
+  note="Not decided: byte-exact output for concrete values, omission of unset members (decided by protoreflect Has at run time), member names being the schema's JSON names beyond the who-returns structure. Trusted: strconv/fmt/time/base64 semantics, protojson's escaper (copied verbatim), README table transcription in props/c08.go. " + _PANIC_NOTE,
+  technique="emitter classification + wire-format table comparison; constant/object-identity extraction; dominator facts; typestate pairing; dispatch-order check; panic-site inventory")
